@@ -27,6 +27,9 @@ func createQ4(
 	eds *rsmt2d.ExtendedDataSquare,
 ) error {
 	verifhook.PointKV("q4.before-create", path)
+	if err := verifhook.Fault("q4.create"); err != nil {
+		return fmt.Errorf("creating Q4 file: %w", err)
+	}
 	mod := os.O_RDWR | os.O_CREATE | os.O_EXCL // ensure we fail if already exist
 	f, err := os.OpenFile(path, mod, filePermissions)
 	if err != nil {
